@@ -242,6 +242,8 @@ def run(chk: core.Check):
         chk.violation({"op": "degree", "origin": origin}, f"captured stencil {origin} has degree {d} > 2 in its samples: the finite basis argument does not apply")
     # coordinate convention of the simulators (x along the last axis, first cell centre at h/2)
     check_position_convention(chk)
+    # the assembled filters on quadratics: a corollary of the 1-D filter Laplacians L_a = -(h^2/4) d_a^2 being exact there
+    check_filters_on_quadratics(chk)
     chk.assumptions += [
         "exactness on monomials of degree <= 2 (<= 3 for same-branch ENO3) is checked exhaustively; second-order accuracy for "
         "smooth fields is its Taylor corollary and is not separately decided",
@@ -254,6 +256,45 @@ def run(chk: core.Check):
         "one case = (operator, monomial exponents per component, ENO3 velocity sign/shift) evaluated at every admissible cell; "
         "replayed per backend/precision; non-trivial = at least one non-constant monomial"
     )
+
+
+def check_filters_on_quadratics(chk):
+    """Deep-interior cells of a quadratic q: L_a q is constant, L_a L_b q = 0.  Hence the documented compositions give
+    convolution order 1: q + (h^2/4)(q_xx + q_yy + q_zz); convolution order >= 2 and multiplicative (any order): q unchanged."""
+    shim.set_backend("compile")
+    rng = np.random.default_rng(chk.seed + 5)
+    shape = (13, 12, 14)
+    z, y, x = np.meshgrid(*[np.arange(n, dtype=float) for n in shape], indexing="ij")
+    for real_t in (np.float64, np.float32):
+        for ftype in ("multiplicative", "convolution"):
+            for order in (1, 2, 3):
+                for field_type in ("scalar", "vector"):
+                    fb = np.full(shape, 3.0, dtype=real_t)
+                    bb = np.full(shape, -2.0, dtype=real_t)
+                    filt = kernels.gen("gen_laplacian_filter_kernel_3d", real_t, filter_order=order, filter_flux_buffer=fb, field_buffer=bb,
+                                       filter_type=ftype, field_type=field_type, _nocache=True)
+                    ncomp = 3 if field_type == "vector" else 1
+                    co = rng.integers(-3, 4, (ncomp, 10)).astype(float)
+                    q = [c[0] + c[1] * x + c[2] * y + c[3] * z + c[4] * x * x + c[5] * y * y + c[6] * z * z + c[7] * x * y + c[8] * y * z + c[9] * x * z for c in co]
+                    lap = [2 * (c[4] + c[5] + c[6]) for c in co]
+                    f = np.array(q, dtype=real_t) if ncomp == 3 else np.array(q[0], dtype=real_t)
+                    f0 = f.astype(float).copy()
+                    fb[...] = rng.integers(-9, 10, shape)            # scratch is dirty when the filter is called
+                    bb[...] = rng.integers(-9, 10, shape)
+                    filt(**{("vector_field" if ncomp == 3 else "scalar_field"): f})
+                    m = order + 2          # each 1-D pass carries the influence of the zeroed ring one cell inwards
+                    core_ = (slice(m, -m),) * 3
+                    chk.traces += 1
+                    chk.count(("filter-quadratic", real_t.__name__, ftype, order, field_type))
+                    for k in range(ncomp):
+                        got = (f[k] if ncomp == 3 else f).astype(float)[core_]
+                        ref = (f0[k] if ncomp == 3 else f0)[core_] + (0.25 * lap[k] if (ftype == "convolution" and order == 1) else 0.0)
+                        tol = 64 * float(np.finfo(real_t).eps) * (np.abs(ref).max() + 1)
+                        if np.abs(got - ref).max() > tol:
+                            chk.violation({"op": "filter_quadratic", "type": ftype, "order": order},
+                                          f"{ftype} filter of order {order} ({field_type}, {real_t.__name__}) on the quadratic with coefficients {co[k].tolist()}: "
+                                          f"deep-interior cells deviate by {np.abs(got - ref).max():.3g} from the value implied by exact 1-D filter Laplacians")
+                            break
 
 
 def check_position_convention(chk):
